@@ -60,12 +60,32 @@ def impl():
 class Problem:
     """a real DynamicsFunctions on a structured mesh plus dense-Newton minimisation of its algorithmic energy"""
 
-    def __init__(self, Nx, Ny, xe, ye, order, E, nu, rho, gamma, beta, material='linear'):
+    def __init__(self, Nx, Ny, xe, ye, order, E, nu, rho, gamma, beta, material='linear', qdeg=None, distort=0.0, dseed=0):
         I = impl()
         jax, jnp = I['jax'], I['jnp']
-        self.args = dict(Nx=Nx, Ny=Ny, xExtent=xe, yExtent=ye, order=order, E=E, nu=nu, rho=rho, gamma=gamma, beta=beta, material=material)
-        mesh = I['Mesh'].construct_structured_mesh(Nx, Ny, xe, ye, elementOrder=order)
-        qr = I['QR'].create_quadrature_rule_on_triangle(degree=2 * order)
+        qdeg = qdeg if qdeg is not None else 2 * order
+        self.args = dict(Nx=Nx, Ny=Ny, xExtent=xe, yExtent=ye, order=order, E=E, nu=nu, rho=rho, gamma=gamma, beta=beta, material=material,
+                         qdeg=qdeg, distort=distort, dseed=dseed)
+        self.full_rule = qdeg >= 2 * order
+        if distort > 0:
+            # distorted mesh: interior vertices of the structured simplex mesh moved by a seeded random fraction of the cell size,
+            # then elevated to the requested order (mid-side / interior nodes follow the straight-sided elements)
+            import random as _random
+            base = I['Mesh'].construct_structured_mesh(Nx, Ny, xe, ye)
+            X = I['onp'].array(base.coords)
+            rr = _random.Random(dseed)
+            hx, hy = (xe[1] - xe[0]) / (Nx - 1), (ye[1] - ye[0]) / (Ny - 1)
+            for k in range(X.shape[0]):
+                interior = xe[0] + 1e-9 < X[k, 0] < xe[1] - 1e-9 and ye[0] + 1e-9 < X[k, 1] < ye[1] - 1e-9
+                if interior:
+                    X[k, 0] += distort * hx * rr.uniform(-1, 1)
+                    X[k, 1] += distort * hy * rr.uniform(-1, 1)
+            mesh = I['Mesh'].construct_mesh_from_basic_data(jnp.asarray(X), base.conns, {'block': jnp.arange(base.conns.shape[0])})
+            if order > 1:
+                mesh = I['Mesh'].create_higher_order_mesh_from_simplex_mesh(mesh, order)
+        else:
+            mesh = I['Mesh'].construct_structured_mesh(Nx, Ny, xe, ye, elementOrder=order)
+        qr = I['QR'].create_quadrature_rule_on_triangle(degree=qdeg)
         self.fs = I['FS'].construct_function_space(mesh, qr)
         self.mesh = mesh
         props = {'elastic modulus': E, 'poisson ratio': nu, 'density': rho}
@@ -108,9 +128,9 @@ class Problem:
         return U1, V1.ravel(), A1.ravel(), Up
 
 
-def random_problem(ctx, r, trapezoidal, order=None, material='linear'):
+def random_problem(ctx, r, trapezoidal, order=None, material='linear', qdeg=None, distort=0.0):
     order = order or r.choice([1, 2])
-    Nx, Ny = (r.randrange(3, 6), r.randrange(2, 5)) if order == 2 else (r.randrange(3, 8), r.randrange(3, 7))
+    Nx, Ny = (r.randrange(3, 6), r.randrange(3, 5)) if order >= 2 else (r.randrange(3, 8), r.randrange(3, 7))
     xe, ye = (0.0, r.uniform(0.5, 2.0)), (0.0, r.uniform(0.2, 1.0))
     E, nu, rho = 10.0 ** r.uniform(0, 2), r.uniform(0.0, 0.4), 10.0 ** r.uniform(-1, 1)
     if trapezoidal:
@@ -118,7 +138,7 @@ def random_problem(ctx, r, trapezoidal, order=None, material='linear'):
     else:
         gamma = r.uniform(0.5, 1.0)
         beta = 0.25 * (gamma + 0.5) ** 2 * r.uniform(1.0, 1.5)
-    return Problem(Nx, Ny, xe, ye, order, E, nu, rho, gamma, beta, material)
+    return Problem(Nx, Ny, xe, ye, order, E, nu, rho, gamma, beta, material, qdeg=qdeg, distort=distort, dseed=r.randrange(1 << 30))
 
 
 def nrm(x):
@@ -140,11 +160,16 @@ def check_steps(ctx, P, r, nsteps, kind, distinct):
         V = jnp.tile(jnp.array(c), P.shape[0])
         A = jnp.zeros(n)
     else:
-        U = jnp.array([r.uniform(-amp, amp) for _ in range(n)])
         V = jnp.array([r.uniform(-1, 1) for _ in range(n)])
-        # consistent initial acceleration: M A0 + fint(U0) = 0
-        M = P.hke(jnp.zeros(n))
-        A = -jnp.linalg.solve(M, P.gse(U))
+        if P.full_rule:
+            U = jnp.array([r.uniform(-amp, amp) for _ in range(n)])
+            # consistent initial acceleration: M A0 + fint(U0) = 0
+            M = P.hke(jnp.zeros(n))
+            A = -jnp.linalg.solve(M, P.gse(U))
+        else:
+            # under-integrating rule: the mass matrix may be singular; start from rest position (fint = 0, A0 = 0 is consistent)
+            U = jnp.zeros(n)
+            A = jnp.zeros(n)
     E0 = float(P.ke(V) + P.se(U))
     U0, t = U, 0.0
     dts = []
@@ -217,7 +242,19 @@ def check_hypotheses_and_mass(ctx, P, r):
         ctx.fail('conclusion', 'mass or stiffness form is not symmetric', case=case, concrete=True)
     ev = onp.linalg.eigvalsh(0.5 * (M + M.T))
     ek = onp.linalg.eigvalsh(0.5 * (K + K.T))
-    if ev.min() <= 0:
+    # the mass that DRIVES the integrator (inertia term of the algorithmic energy: beta dt^2 * (Hessian of E_alg - K)) must be the
+    # mass implied by the REPORTED kinetic energy (Hessian of compute_output_kinetic_energy), entry by entry
+    dt_ = 0.37
+    z = jnp.zeros(n)
+    Malg = P.beta * dt_ * dt_ * (onp.array(P.halg(z, z, dt_)) - K)
+    dev = abs(Malg - M).max()
+    if not dev <= 1e-9 * msc:
+        ctx.fail('conclusion', 'mass of the algorithmic energy differs from the mass of compute_output_kinetic_energy: max entry difference %.3g (scale %.3g)'
+                 % (dev, msc), case=case, concrete=True)
+    if not P.full_rule:
+        if ev.min() < -1e-10 * msc:
+            ctx.fail('conclusion', 'mass matrix has a negative eigenvalue %r' % ev.min(), case=case, concrete=True)
+    elif ev.min() <= 0:
         ctx.fail('conclusion', 'consistent mass matrix is not positive definite: min eigenvalue %r' % ev.min(), case=case, concrete=True)
     if ek.min() < -1e-9 * ksc:
         ctx.fail('conclusion', 'linear-elastic stiffness is not positive semi-definite: min eigenvalue %r' % ek.min(), case=case, concrete=True)
@@ -287,6 +324,17 @@ def correspondence(ctx, model_ok):
         ctx.log('problem %d (order %d, %d dofs) done' % (pi, order, Pt.n))
         if pi == 0:
             kin_ties.append((Pt, forms))
+    # element order >= 2 with UNDER-integrating rules on distorted meshes, non-rigid velocity: the energies the library REPORTS
+    # (compute_output_kinetic_energy + compute_output_strain_energy) must still be conserved, and the reported mass is the driving mass
+    for (order, qd) in ((2, 2), (3, 4)) if not ctx.quick() else ((2, 2),):
+        Pu = random_problem(ctx, r, trapezoidal=True, order=order, qdeg=qd, distort=0.3)
+        check_hypotheses_and_mass(ctx, Pu, r)
+        evals += 6 + check_steps(ctx, Pu, r, ctx.n(25, 120), 'energy', distinct)
+        ctx.log('under-integrated problem (order %d, rule degree %d, distorted, %d dofs) done' % (order, qd, Pu.n))
+    Pd = random_problem(ctx, r, trapezoidal=True, order=2, distort=0.3)
+    check_hypotheses_and_mass(ctx, Pd, r)
+    evals += 6 + check_steps(ctx, Pd, r, ctx.n(25, 120), 'energy', distinct)
+    ctx.log('distorted fully integrated order-2 problem done')
     # nonlinear material: balance and update formulas only
     Pn = random_problem(ctx, r, trapezoidal=False, order=1, material='neohookean')
     evals += check_steps(ctx, Pn, r, ctx.n(6, 25), 'general', distinct)
@@ -422,7 +470,8 @@ def replay(ctx, path):
     if case.get('fn') in ('newmark', 'forms'):
         keys = ('Nx', 'Ny', 'xExtent', 'yExtent', 'order', 'E', 'nu', 'rho', 'gamma', 'beta', 'material')
         a = {k: case[k] for k in keys}
-        P = Problem(a['Nx'], a['Ny'], tuple(a['xExtent']), tuple(a['yExtent']), a['order'], a['E'], a['nu'], a['rho'], a['gamma'], a['beta'], a['material'])
+        P = Problem(a['Nx'], a['Ny'], tuple(a['xExtent']), tuple(a['yExtent']), a['order'], a['E'], a['nu'], a['rho'], a['gamma'], a['beta'], a['material'],
+                    qdeg=case.get('qdeg'), distort=case.get('distort', 0.0), dseed=case.get('dseed', 0))
         c2 = C.Ctx(ID, 'quick', rep.get('seed', 0))
         r = c2.rng('replay')
         if case['fn'] == 'forms':
